@@ -235,6 +235,10 @@ class StmtInferrer(ast.NodeVisitor):
     if types is not None:
       # TODO(mdan): Normalize by removing subtypes.
       anno.setanno(node, anno.Static.TYPES, tuple(types))
+    elif anno.hasanno(node, anno.Static.TYPES):
+      # A statement is visited again when the types that reach it change: what
+      # an earlier visit knew may have become unknown.
+      anno.delanno(node, anno.Static.TYPES)
     return types
 
   def _check_set(self, value):
